@@ -63,11 +63,13 @@ fn is_constant(array: &dyn Array) -> bool {
         return true;
     }
 
-    // For primitive arrays
+    // For primitive arrays. NULL slots carry arbitrary payload values, so the
+    // comparison goes through the Option iterator: an array is constant only
+    // if every element, NULLs included, equals the first.
     if let Some(primitive) = array.as_any().downcast_ref::<Int64Array>() {
         if !primitive.is_empty() {
-            let first = primitive.value(0);
-            return primitive.values().iter().all(|&v| v == first);
+            let first = primitive.iter().next().flatten();
+            return primitive.iter().all(|v| v == first);
         }
     }
 
@@ -248,15 +250,10 @@ impl ConstantArray {
                 let values: Vec<Option<&str>> = vec![Some(v.as_str()); self.len];
                 Arc::new(StringArray::from(values))
             }
-            _ => {
-                // Fallback: create array with default values
-                match data_type {
-                    DataType::Int64 => Arc::new(Int64Array::from(vec![0i64; self.len])),
-                    DataType::Float64 => Arc::new(Float64Array::from(vec![0.0f64; self.len])),
-                    DataType::Utf8 => Arc::new(StringArray::from(vec![String::new(); self.len])),
-                    _ => panic!("Unsupported data type for constant array: {:?}", data_type),
-                }
-            }
+            ScalarValue::Boolean(Some(v)) => Arc::new(BooleanArray::from(vec![*v; self.len])),
+            // A constant NULL is an all-NULL array of the requested type, not
+            // zeros or empty strings.
+            _ => new_null_array(data_type, self.len),
         }
     }
 }
